@@ -206,6 +206,15 @@ class WriterRun:
         if tr is not None:
             st.ghost["trace"] = tr + (short + cg,)
         self.event(call, "call", short + cg)
+        if short == "private_flush":
+            # what the open-master stack looks like at the moment the buffer is handed to the destination
+            ot = get_at(st.cells[("H", "arg", 1)], (self.fx["open_tags"],))
+            no_known = None
+            if isinstance(ot, Arr):
+                sz = ot.elem.fields[1] if isinstance(ot.elem, Struct) and len(ot.elem.fields) > 1 else None
+                no_known = (ot.len.hi == 0) or (isinstance(sz, Enum) and 0 not in sz.variants) or ot.elem.is_bot()
+            self.flushes = getattr(self, "flushes", []) + [(call.frame.body.name, bool(no_known), str(call.span))]
+            st.ghost["flushed"] = 1
         if short in ("start_tag", "start_unknown_size_tag", "end_tag", "write_explicit_sized") or short.startswith("write_"):
             # id argument identity
             pass
@@ -271,9 +280,10 @@ class WriterRun:
             ot_elem = Struct("tuple", [Int.top(64, False), Enum("tag_iterator_util::EBMLSize", {0: (Int(0, ISIZE_MAX, 64, False),), 1: ()}), Int(0, 8, 64, False)])
             if self.stack_elem is not None:
                 sv, k = self.stack_elem
-                size = Enum("tag_iterator_util::EBMLSize", {0: (Int(0, ISIZE_MAX, 64, False),)} if sv == "Known" else {1: ()})
-                ot_elem = Struct("tuple", [Int.top(64, False), size, Int.const(k, 64, False)])
-                v = set_at(v, (fx["open_tags"],), Arr(Int(1, ISIZE_MAX, 64, False), ot_elem, None, "vec"))
+                size = Enum("tag_iterator_util::EBMLSize", {0: (Int(0, ISIZE_MAX, 64, False),)} if sv == "Known" else ({1: ()} if sv == "Unknown" else
+                                                                {0: (Int(0, ISIZE_MAX, 64, False),), 1: ()}))
+                ot_elem = Struct("tuple", [Int.top(64, False), size, Int.const(k, 64, False) if k is not None else Int(0, 8, 64, False)])
+                v = set_at(v, (fx["open_tags"],), Arr(Int(1 if sv != "Mixed" else 0, ISIZE_MAX, 64, False), ot_elem, None, "vec"))
             else:
                 v = set_at(v, (fx["open_tags"],), Arr(Int(0, ISIZE_MAX, 64, False), ot_elem, None, "vec"))
             v = set_at(v, (fx["working_buffer"],), Arr(Int(0, ISIZE_MAX, 64, False), Int.top(8, False), None, "vec"))
@@ -284,6 +294,7 @@ class WriterRun:
                 st.cons.add_eq(LinForm.var((g, ())) - LinForm.var((cell, (fx[f], "len"))))
                 st.ghost[w] = "clean"
             st.ghost["validated"] = 0
+            st.ghost["flushed"] = 0
             st.ghost["trace"] = ()
             # options argument of write_advanced
             if body.name == "write_advanced":
@@ -607,4 +618,48 @@ def r_atomic(ctx):
     rep.require_floor(30, "configuration classes")
     if rep.obligations < 20:
         raise AnchorLost("R-ATOMIC: only %d error exits analysed" % rep.obligations)
+    return rep
+
+
+# ----------------------------------------------------------------------------------------------------------
+# C10 / C09: the flush decision, semantically
+# ----------------------------------------------------------------------------------------------------------
+def r_flush_sem(ctx):
+    rep = RuleReport("R-FLUSH-GUARD", "abstract interpretation of every writing entry per class of (data type, master form, options) and per content "
+                     "class of the open-master stack (all known-size / all unknown-size / mixed or empty): whenever the buffer is handed to the "
+                     "destination (private_flush) outside flush()/into_inner(), no known-size master is open; and an element or a master End written "
+                     "while no known-size master is open is handed over before the call returns Ok")
+    prog = ctx.prog
+    cases = []
+    for t in ("UnsignedInt", "Binary", None):
+        cases.append(("TagWriter::write_advanced", t, None, None, False))
+    for form in ("Start", "End", "Full"):
+        cases.append(("TagWriter::write_advanced", "Master", form, None, False))
+    cases.append(("TagWriter::write_advanced", "Master", "Start", None, True))
+    cases.append(("TagWriter::write_unknown_size", "Master", "Start", None, True))
+    cases.append(("TagWriter::write_raw", None, None, None, False))
+    n_flush = 0
+    for entry, t, form, k, unknown in cases:
+        for se in (("Known", None), ("Unknown", None), ("Mixed", None)):
+            run = WriterRun(prog, entry, tag_type=t, form=form, size_len=k, unknown=unknown, stack_elem=se).run()
+            inst = "%s type=%s form=%s unknown=%s stack=%s" % (entry.split("::")[-1], t, form, unknown, se[0])
+            fl = getattr(run, "flushes", [])
+            n_flush += len(fl)
+            rep.instance("%s: %d hand-over events" % (inst, len(fl)))
+            rep.analysed.append(entry)
+            bad = sorted({w for (fn, ok, w) in fl if not ok})
+            rep.oblige(not bad, "FLUSH-GUARD|%s|%s|%s|%s|no-known-open" % (entry.split("::")[-1], t, form, se[0]), "src/tag_writer.rs",
+                       "%s: the buffer is handed to the destination while a known-size master may still be open (%s)" % (inst, bad))
+            # liveness: nothing known-size open at entry and none opened by this call => delivered before returning Ok
+            # (the property speaks about elements and master Ends; a Start only opens a master, and a Full master pushes a known-size entry
+            #  that the summarised stack cannot forget again)
+            if se[0] == "Unknown" and not (t == "Master" and form in ("Start", "Full")):
+                for e in run.exits:
+                    v = e.cells.get(run.frame.cell(0))
+                    if isinstance(v, Enum) and 0 in v.variants and len(v.variants) == 1:
+                        rep.oblige(e.ghost.get("flushed") == 1, "FLUSH-COMPLETE|%s|%s|%s|delivered" % (entry.split("::")[-1], t, form), "src/tag_writer.rs",
+                                   "%s: returns Ok without handing the buffer over although no known-size master is open" % inst)
+    if n_flush < 6:
+        raise AnchorLost("R-FLUSH-GUARD: only %d hand-over events observed" % n_flush)
+    rep.require_floor(20, "entry x stack classes")
     return rep
